@@ -22,7 +22,7 @@
             closing bracket, = after a map key ...).
    rdepth v: the fuel the reader needs (nesting depth plus widths). *)
 From verif Require Import lib.Base lib.Utf8 model.C03 proofs.C03_proofs model.C08_Value model.C04
-  proofs.C04_proofs proofs.C04_text proofs.C04_roundtrip proofs.C04_sem proofs.C04_order proofs.C04_main.
+  proofs.C04_proofs proofs.C04_text proofs.C04_roundtrip proofs.C04_sem proofs.C04_order proofs.C04_fuel proofs.C04_main.
 From verif Require model.C05 proofs.C05_float_proofs.
 From Coq Require Import Permutation.
 Open Scope N_scope.
@@ -68,6 +68,16 @@ Theorem C04_repr_single_expression : forall is_print pf fmtF fmtE rk,
   read_val is_print pf fuel CNormal (repr is_print fmtF fmtE rk v ind ++ []) = ROk (norm pf rk v) [].
 Proof. exact repr_single_expression. Qed.
 Print Assumptions C04_repr_single_expression.
+
+(* ... in particular for the function the judge runs on the whole argument of
+   put, with the fuel it gives itself: the text is exactly one expression and
+   evaluates to a value eq to the original *)
+Theorem C04_read_expr_roundtrip : forall is_print pf fmtF fmtE rk,
+  C05_float_proofs.contract_S pf fmtF fmtE ->
+  forall v ind, okv v = true -> wfv v ->
+  exists v', read_expr is_print pf (repr is_print fmtF fmtE rk v ind) = EVal v' /\ eqn v v' = true.
+Proof. exact read_expr_roundtrip. Qed.
+Print Assumptions C04_read_expr_roundtrip.
 
 (* Every number keeps its exact or inexact type: int, big int and rational come
    back identical, a float bit for bit, a NaN as a NaN; nothing else becomes a
@@ -131,6 +141,22 @@ Theorem C04_repr_order_canonical_partial : forall is_print fmtF fmtE rk m1 m2 in
   repr is_print fmtF fmtE rk (VMap m1) ind = repr is_print fmtF fmtE rk (VMap m2) ind.
 Proof. exact repr_order_canonical_partial. Qed.
 Print Assumptions C04_repr_order_canonical_partial.
+
+(* ... and through nesting: repr is compositional, so a map whose entries come
+   out in another order AND whose values are themselves values that print alike
+   (e.g. hold maps rebuilt in other orders, recursively) prints alike *)
+Theorem C04_repr_order_canonical_nested_partial : forall is_print fmtF fmtE rk m m'' m',
+  Permutation m m'' -> StrictKeys rk m ->
+  Forall2 (fun e e' => fst e = fst e' /\ SameText is_print fmtF fmtE rk (snd e) (snd e')) m'' m' ->
+  SameText is_print fmtF fmtE rk (VMap m) (VMap m').
+Proof. exact repr_order_canonical_nested_partial. Qed.
+Print Assumptions C04_repr_order_canonical_nested_partial.
+
+Theorem C04_same_text_list : forall is_print fmtF fmtE rk s s' l l',
+  Forall2 (SameText is_print fmtF fmtE rk) l l' ->
+  SameText is_print fmtF fmtE rk (VList s l) (VList s' l').
+Proof. exact same_text_list. Qed.
+Print Assumptions C04_same_text_list.
 
 (* the sort itself: one result for all permutations of the input under a strict
    linear order on the elements present *)
